@@ -11,8 +11,9 @@ that Display -> parse reproduces the layout (both build profiles); vm_compute sa
 import vlib
 from checks import metadata_common as mc
 
-THEOREMS = ["Props_C20.C20_import", "Props_C20.C20_offset_from_str", "Props_C20.C20_nonvacuous"]
-FILES = ["Bytes.v", "Bytes_proofs.v", "Blocks.v", "Cue.v", "Accessors.v", "CueRender.v", "Blocks_proofs.v", "Cue_proofs.v", "Props_C20.v", "Pins.v"]
+THEOREMS = ["Props_C20.C20_import", "Props_C20.C20_ranges", "Props_C20.C20_render_matches", "Props_C20.C20_import_rendered",
+            "Props_C20.C20_export_import", "Props_C20.C20_offset_from_str", "Props_C20.C20_nonvacuous"]
+FILES = ["Bytes.v", "Bytes_proofs.v", "Blocks.v", "Cue.v", "Accessors.v", "CueRender.v", "Blocks_proofs.v", "Cue_proofs.v", "Cue_proofs2.v", "Props_C20.v", "Pins.v"]
 
 
 def run(chk):
